@@ -1,6 +1,7 @@
 import AidlVerif.Props.TypedCertA
 import AidlVerif.Props.TypedCertB
 import AidlVerif.Props.ParseTotal
+import AidlVerif.Props.ParseSound
 
 /-!
 # C01 / C03, parse stage — for EVERY text: only `fuelOut` or `lexical` stops remain, and a result
@@ -41,7 +42,7 @@ theorem finishE_typed (env : Env) (id : String) (s : St) (o : Outcome) (ho : End
   | actionPanic p => exact ⟨(by intro h; cases h), (by intro q hq; cases hq; exact ho)⟩
   | fuelOut => exact ⟨(by intro h; cases h), (by intro q hq; cases hq)⟩
   | accept v =>
-    rcases hasTy_optNS_aidl ho with ⟨rfl, he⟩ | ⟨a, rfl⟩
+    rcases hasTy_optNS_aidl ho.1 with ⟨rfl, he⟩ | ⟨a, rfl⟩
     · exact fun _ => he
     · intro h; cases h
   | error e =>
@@ -99,5 +100,52 @@ theorem never_silent (env : Env) (id text : String) (hE : EnvOk env text.toList)
   have := addContent_typed_gen Driver.Parse.tables cert tt cert_ok tyFacts_run env id text hE
   rw [h] at this
   exact this hnone
+
+
+/-- what `finishE` returns with a tree: the run accepted, and the result's diagnostics are the state's -/
+theorem finishE_tree (env : Env) (id : String) (s : St) (o : Outcome) (r : FileResult)
+    (h : finishE env id s o = .ok r) (ht : r.ast.isSome = true) : (∃ v, o = .accept v) ∧ r.diags = s.diags := by
+  unfold finishE at h
+  cases o with
+  | panic m => cases h
+  | actionPanic p => cases h
+  | fuelOut => cases h
+  | accept v =>
+    dsimp only at h
+    split at h
+    · cases h; cases ht
+    · cases h; exact ⟨⟨_, rfl⟩, rfl⟩
+    · cases h
+  | error e =>
+    dsimp only at h
+    split at h
+    · cases h
+    · cases h; cases ht
+
+/-- generic over the tables -/
+theorem accepted_clean_derives_gen (T : Tables) (C : Cert) (TT : TyTables) (hC : C.ok T = true) (G : TyFacts T TT)
+    (hcols : LrSound.ColsOk T) (env : Env) (id text : String) (r : FileResult)
+    (h : addContentE T env id text = .ok r) (ht : r.ast.isSome = true) (hno : ¬ hasError r.diags) :
+    LrSound.Derives T (parseLoop T env { input := text.toList } (parseFuel text)).1.hist := by
+  unfold addContentE at h
+  have F := certFacts T C hC
+  obtain ⟨⟨v, hv⟩, hd⟩ := finishE_tree env id _ _ r h ht
+  have h2 := parse_end_ok T C TT env F G text.toList (parseFuel text)
+  rw [hv] at h2
+  have hrec : (parseLoop T env { input := text.toList } (parseFuel text)).1.recovered = false := by
+    cases hr : (parseLoop T env { input := text.toList } (parseFuel text)).1.recovered with
+    | false => rfl
+    | true => exact absurd (by rw [hd]; exact h2.2 hr) hno
+  exact LrSound.accepted_derives T C env F hcols text.toList (parseFuel text) v hv hrec
+
+/-- **Syntax verdicts are sound with respect to the grammar (C03), for every text**: when the model's
+    `add_content` returns a tree and no Error diagnostic, the sequence of tokens the driver shifted is
+    derivable from the accepting production of the grammar extracted from the generated parser —
+    error recovery cannot have run, because every production over `error` reports an Error. -/
+theorem accepted_clean_derives (env : Env) (id text : String) (r : FileResult)
+    (h : addContentE Driver.Parse.tables env id text = .ok r) (ht : r.ast.isSome = true) (hno : ¬ hasError r.diags) :
+    LrSound.Derives Driver.Parse.tables
+      (parseLoop Driver.Parse.tables env { input := text.toList } (parseFuel text)).1.hist :=
+  accepted_clean_derives_gen Driver.Parse.tables cert tt cert_ok tyFacts_run ParseSound.colsOk_run env id text r h ht hno
 
 end Aidl.Props.ParseTyped
